@@ -1387,7 +1387,20 @@ class Interp(object):
       return k(st2, st2.alloc("dict", dict, d))
     return self.comprehension(node, pair, st, ctx, done)
 
-  def comprehension(self, node, elt, st, ctx, k):
+  def lazy_any_all(self, is_any, gnode, st, ctx, k, node):
+    """any(<generator expression>) / all(...): elements are produced one at a time and the walk STOPS at the first element
+    that decides the answer, as in Python - later elements are not evaluated, so their side effects do not happen
+    (2026-09-25: the eager evaluation of generator expressions ran every element; a seeded change
+    `return any(self.removeListener(l) for l in listeners)` was 'proved' to remove every listener)"""
+    def each(st2, v, go_on):
+      def got_t(st3, t):
+        if is_any:
+          return self.branch(t, st3, lambda s: k(s, True), go_on, "any-element")
+        return self.branch(t, st3, go_on, lambda s: k(s, False), "all-element")
+      return self.truth(v, st2, ctx, got_t, node)
+    return self.comprehension(gnode, gnode.elt, st, ctx, lambda st2, _acc: k(st2, not is_any), each=each)
+
+  def comprehension(self, node, elt, st, ctx, k, each=None):
     # own scope: a fresh frame chained to the current one
     fid = new_oid()
     cfn = Closure(node, ctx.fid, ctx.fn.globs, "<comp>", (), {}, owner=ctx.fn.owner,
@@ -1399,6 +1412,8 @@ class Interp(object):
     gens = node.generators
     def gen(gi, st2, acc, kk):
       if gi >= len(gens):
+        if each is not None:
+          return self.ev(elt, st2, cctx, lambda st3, v: each(st3, v, lambda st4: kk(st4, acc)))
         return self.ev(elt, st2, cctx, lambda st3, v: kk(st3, acc + [v]))
       g = gens[gi]
       if g.is_async:
@@ -1574,6 +1589,9 @@ class Interp(object):
         return self.ev_keywords(node.keywords, st2, lctx, got_kw)
       return self.ev_list(node.args, st, lctx, got_args)
     def got_f(st2, f):
+      if (f is builtins.any or f is builtins.all) and len(node.args) == 1 and not node.keywords \
+          and isinstance(node.args[0], ast.GeneratorExp):
+        return self.lazy_any_all(f is builtins.any, node.args[0], st2, ctx, k, node)
       def got_args(st3, args):
         def got_kw(st4, kws):
           return self.call_value(f, args, kws, st4, ctx, k, node)
